@@ -448,6 +448,7 @@ class Engine:
 
     def compare(self, op, a, b, node=None):
         t = type(op)
+        a, b = _as_type(a), _as_type(b)
         if t in (ast.Is, ast.IsNot):
             if is_sym(a) or is_sym(b):
                 if a is None or b is None:
@@ -533,6 +534,9 @@ class Engine:
         return to_z(a, "real") == to_z(b, "real")
 
     def contains(self, cont, item, node=None):
+        item = _as_type(item)
+        if isinstance(cont, (list, tuple)) and any(isinstance(c, Builtin) for c in cont):
+            cont = [_as_type(c) for c in cont]
         if isinstance(cont, PhaseConf):
             return cont.contains(item)
         if isinstance(cont, Opaque) and cont.contains is not None:
@@ -1254,6 +1258,13 @@ class Engine:
 
 
 _MISSING = object()
+
+
+def _as_type(x):
+    """the builtin type names (int, float, list, ...) denote the python types when compared / used in membership tests"""
+    if isinstance(x, Builtin) and x.name in _PYTYPES:
+        return _PYTYPES[x.name]
+    return x
 
 
 def _isnumber(v):
